@@ -28,9 +28,12 @@ VARIABLES files,      \* the byte contents, chosen once
 
 vars == <<files, fi, pos, out, lost>>
 
-WellFormed(s) ==    \* 195 is always followed by 169, 169 only follows 195 (BAD is the only malformed byte)
-  \A i \in 1..Len(s) : /\ (s[i] = 195 => i < Len(s) /\ s[i + 1] = 169)
-                       /\ (s[i] = 169 => i > 1 /\ s[i - 1] = 195)
+\* every byte sequence is a file: 195 169 is U+00E9; a 195 that is not followed by 169 (a character cut off by the end of the line, of the file, or
+\* by any other byte), a 169 without its 195 and BAD are malformed: each is read as one U+FFFD and the line goes on
+WellFormed(s) == TRUE
+Malformed(s) == \E i \in 1..Len(s) : \/ s[i] = BAD
+                                      \/ (s[i] = 195 /\ ~(i < Len(s) /\ s[i + 1] = 169))
+                                      \/ (s[i] = 169 /\ ~(i > 1 /\ s[i - 1] = 195))
 
 RECURSIVE SeqsUpTo(_)
 SeqsUpTo(n) == IF n = 0 THEN {<<>>}
@@ -43,8 +46,8 @@ FirstLF(s, i) == IF i > Len(s) THEN 0 ELSE IF s[i] = LF THEN i ELSE FirstLF(s, i
 \* decoding of one line's bytes to code points: U+00E9 for 195 169, U+FFFD for a malformed byte
 RECURSIVE Decode(_)
 Decode(b) == IF b = <<>> THEN <<>>
-             ELSE IF Head(b) = 195 THEN <<233>> \o Decode(SubSeq(b, 3, Len(b)))
-             ELSE IF Head(b) = BAD THEN <<65533>> \o Decode(Tail(b))
+             ELSE IF Head(b) = 195 /\ Len(b) >= 2 /\ b[2] = 169 THEN <<233>> \o Decode(SubSeq(b, 3, Len(b)))
+             ELSE IF Head(b) \in {BAD, 195, 169} THEN <<65533>> \o Decode(Tail(b))
              ELSE <<Head(b)>> \o Decode(Tail(b))
 
 StripCR(b) == IF b # <<>> /\ b[Len(b)] = CR THEN SubSeq(b, 1, Len(b) - 1) ELSE b
@@ -79,7 +82,7 @@ ReadLine ==
          i == FirstLF(rest, 1)
          raw == IF i = 0 THEN rest ELSE StripCR(SubSeq(rest, 1, i - 1))
          next == IF i = 0 THEN Len(files[fi]) ELSE pos + i
-     IN IF "InvalidUtf8EndsFile" \in Dev /\ \E j \in 1..Len(raw) : raw[j] = BAD
+     IN IF "InvalidUtf8EndsFile" \in Dev /\ Malformed(raw)
         THEN \* as built: `if let Ok(line) = line {..} else { break; }` -- the rest of the file is skipped silently
              /\ pos' = Len(files[fi]) /\ lost' = ((next < Len(files[fi])) \/ lost) /\ UNCHANGED out
         ELSE /\ out' = Append(out, Decode(raw)) /\ pos' = next /\ UNCHANGED lost
